@@ -209,6 +209,13 @@ def analyse(fn, call_const, uses_context, what):
                 elif op in ('In', 'NotIn') and a == R:
                     M = b
                     memo_hit = outcome if op == 'In' else not outcome
+                elif op in ('Is', 'IsNot') and ('CONST', 'None') in (a, b):
+                    # idiom: cached = memo.get(request); if cached is not None: ...
+                    g = a if b == ('CONST', 'None') else b
+                    if isinstance(g, tuple) and g[:1] == ('CALL',) and isinstance(g[1], tuple) \
+                            and g[1][:1] == ('ATTR',) and g[1][2] == 'get' and g[2:] == (R,):
+                        M = g[1][1]
+                        memo_hit = (not outcome) if op == 'Is' else outcome
         return is_req, memo_hit, M
 
     def gen_creations(bp):
